@@ -11,7 +11,7 @@
    save_body c st p = the body a save produces for plaintext p when the encryptor IV is st;
    session_plain d t = 8-byte expiry followed by the data. *)
 From CppcmsV Require Import Base.Tac Base.CSem Base.Sweep C15.Defs C05.Defs C05.Proofs C05.ProofsAes C05.ProofsCookies
-  C05.ProofsConfig C05.ProofsTrace C05.Toy C05.Link gen.Gen_c05key.
+  C05.ProofsConfig C05.ProofsTrace C05.ProofsObj C05.ProofsObjTrace C05.ProofsObjLive C05.ProofsSi C05.ProofsData C05.Toy C05.Link gen.Gen_c05key.
 Local Open Scope N_scope.
 
 Definition hmac_fixed_len (hmac : N -> list N -> list N -> list N) (dlen : N -> nat) : Prop :=
@@ -321,3 +321,235 @@ Theorem source_from_hex_is_model_hexv : forall b, b < 256 ->
   Z.to_N (g_key_from_hex (wraps 8 (Z.of_N b))) = match hexv b with Some v => v | None => 0 end.
 Proof. exact link_from_hex. Qed.
 Print Assumptions source_from_hex_is_model_hexv.
+
+(* ===== 9. the encryptor OBJECT: presented cookies never influence what is issued (non-interference) =====
+   Defs.v models the state an encryptor carries between calls as the code has it: the cbc object of src/aes.cpp keeps two
+   chaining vectors (iv_enc read/written by encrypt only, iv_dec by decrypt only; set_iv writes both, set_nonce_iv draws
+   both), aes_cipher owns one cbc object, session_cookies one aes_cipher; every request does load then save on ONE object.
+   enc_side_eq o o2 = the two states agree on iv_enc and on "a vector was set"; not_dec / is_save_op select the calls. *)
+
+(* cbc object, any history of set_iv / set_nonce_iv / encrypt / decrypt: the answers of the encrypt calls are those of the
+   history with EVERY decrypt call deleted (whatever the decryption side of the state was) *)
+Theorem cbc_encrypt_ignores_decrypts : forall E D k ops o o2, enc_side_eq o o2 ->
+  obj_outs E D is_enc_op k o ops = obj_outs E D is_enc_op k o2 (filter not_dec ops).
+Proof. exact obj_enc_noninterference. Qed.
+Print Assumptions cbc_encrypt_ignores_decrypts.
+
+(* ... and so are the chaining vectors those encrypt calls start from *)
+Theorem cbc_encrypt_iv_ignores_decrypts : forall E D k ops o o2, enc_side_eq o o2 ->
+  obj_enc_ivs E D k o ops = obj_enc_ivs E D k o2 (filter not_dec ops).
+Proof. exact obj_enc_ivs_noninterference. Qed.
+Print Assumptions cbc_encrypt_iv_ignores_decrypts.
+
+(* symmetric: decrypt answers do not depend on the encrypt calls *)
+Theorem cbc_decrypt_ignores_encrypts : forall E D k ops o o2, dec_side_eq o o2 ->
+  obj_outs E D is_dec_op k o ops = obj_outs E D is_dec_op k o2 (filter not_enc ops).
+Proof. exact obj_dec_noninterference. Qed.
+Print Assumptions cbc_decrypt_ignores_encrypts.
+
+(* written out: once a vector is set (the nonce) and only encrypt / decrypt calls follow, the vector of the n-th encrypt is the
+   nonce for n = 0 and otherwise what the (n-1)-th ENCRYPT call left behind: a function of the nonce and the encrypt inputs *)
+Theorem cbc_encrypt_iv_is_nonce_chain : forall E D k ops o, iv_init o = true -> forallb only_enc_dec ops = true ->
+  obj_enc_ivs E D k o ops = enc_chain E k (iv_enc o) (enc_inputs ops).
+Proof. exact obj_enc_ivs_chain. Qed.
+Print Assumptions cbc_encrypt_iv_is_nonce_chain.
+
+(* session level, both encryptors, any history of saves and loads on one session_cookies object: the cookies issued are those
+   the object would issue if no cookie had ever been presented to it *)
+Theorem issued_cookies_ignore_presented_cookies : forall hmac dlen E D c ops o o2, iv_enc o = iv_enc o2 ->
+  cookies_issued hmac dlen E D c o ops = cookies_issued hmac dlen E D c o2 (filter is_save_op ops).
+Proof. exact cookies_issued_noninterference. Qed.
+Print Assumptions issued_cookies_ignore_presented_cookies.
+
+Theorem save_ivs_ignore_presented_cookies : forall hmac dlen E D c ops o o2, iv_enc o = iv_enc o2 ->
+  cookies_save_ivs hmac dlen E D c o ops = cookies_save_ivs hmac dlen E D c o2 (filter is_save_op ops).
+Proof. exact cookies_save_ivs_noninterference. Qed.
+Print Assumptions save_ivs_ignore_presented_cookies.
+
+(* one request: whatever cookies were loaded on the object before, the save is the save of section 1 from the object own
+   encryption vector (so every theorem above about cookies_save applies to it) *)
+Theorem save_after_loads_uses_own_chain : forall hmac dlen E D c o ls d t,
+  fst (cookies_obj_save hmac E c (after_loads hmac dlen D c o ls) d t) = fst (cookies_save hmac E c (iv_enc o) d t).
+Proof. exact save_after_loads. Qed.
+Print Assumptions save_after_loads_uses_own_chain.
+
+(* the first cipher block of an issued cipher text is E(chaining vector), independent of the payload; D of it is the vector
+   (this is how the check recovers the nonce from a cookie) *)
+Theorem first_block_is_E_of_iv : forall hmac dlen E D,
+  hmac_fixed_len hmac dlen -> block_len E -> block_len D -> block_inverse E D ->
+  forall ck ma mk o p, length (iv_enc o) = 16%nat ->
+  firstn 16 (fst (aes_obj_encrypt hmac E ck ma mk o p)) = E ck (iv_enc o) /\
+  D ck (firstn 16 (fst (aes_obj_encrypt hmac E ck ma mk o p))) = iv_enc o.
+Proof.
+  intros hmac dlen E D H1 H2 H3 H4 ck ma mk o p Hiv.
+  split; [exact (aes_obj_first_block hmac dlen E D H1 H2 H3 H4 ck ma mk o p Hiv)
+         |exact (aes_obj_first_block_reveals_iv hmac dlen E D H1 H2 H3 H4 ck ma mk o p Hiv)].
+Qed.
+Print Assumptions first_block_is_E_of_iv.
+
+(* two objects whose nonces differ: whatever was presented to either of them, whatever they save (equal payloads included),
+   the first blocks of what they issue differ, hence the cipher texts differ *)
+Theorem distinct_nonces_distinct_first_blocks : forall hmac dlen E D,
+  hmac_fixed_len hmac dlen -> block_len E -> block_len D -> block_inverse E D ->
+  forall ck ma mk o1 o2 ls1 ls2 p1 p2,
+  length (iv_enc o1) = 16%nat -> length (iv_enc o2) = 16%nat -> iv_enc o1 <> iv_enc o2 ->
+  firstn 16 (fst (enc_obj_encrypt hmac E (CAes ck ma mk) (after_loads hmac dlen D (CAes ck ma mk) o1 ls1) p1)) <>
+  firstn 16 (fst (enc_obj_encrypt hmac E (CAes ck ma mk) (after_loads hmac dlen D (CAes ck ma mk) o2 ls2) p2)).
+Proof. exact distinct_nonce_distinct_first_block. Qed.
+Print Assumptions distinct_nonces_distinct_first_blocks.
+
+Theorem distinct_nonces_distinct_ciphertexts : forall hmac dlen E D,
+  hmac_fixed_len hmac dlen -> block_len E -> block_len D -> block_inverse E D ->
+  forall ck ma mk o1 o2 ls1 ls2 d t,
+  length (iv_enc o1) = 16%nat -> length (iv_enc o2) = 16%nat -> iv_enc o1 <> iv_enc o2 ->
+  fst (enc_obj_encrypt hmac E (CAes ck ma mk) (after_loads hmac dlen D (CAes ck ma mk) o1 ls1) (le64_enc t ++ d)) <>
+  fst (enc_obj_encrypt hmac E (CAes ck ma mk) (after_loads hmac dlen D (CAes ck ma mk) o2 ls2) (le64_enc t ++ d)).
+Proof. exact distinct_nonce_distinct_cookie. Qed.
+Print Assumptions distinct_nonces_distinct_ciphertexts.
+
+(* within one object the vector of the next save is the last cipher block of the cipher text just issued, also when cookies
+   are presented in between *)
+Theorem next_save_iv_is_own_last_block : forall hmac dlen E D,
+  hmac_fixed_len hmac dlen -> block_len E -> block_len D -> block_inverse E D ->
+  forall ck ma mk o p ls,
+  iv_enc (after_loads hmac dlen D (CAes ck ma mk) (snd (enc_obj_encrypt hmac E (CAes ck ma mk) o p)) ls) =
+  skipn (aes_total (length p) - 16) (aes_body E ck (iv_enc o) p).
+Proof. exact next_save_iv_is_last_block. Qed.
+Print Assumptions next_save_iv_is_own_last_block.
+
+(* the cbc object is a working CBC: after set_iv both sides start from the vector that was set, and what encrypt
+   produced is read back by decrypt on the same object *)
+Theorem cbc_object_roundtrip_after_set_iv : forall E D, block_len E -> block_len D -> block_inverse E D ->
+  forall k o iv p nb, length iv = 16%nat -> length p = (16 * nb)%nat ->
+  obj_run E D k o [OSetIv iv; OEnc p; ODec (fst (cbc_enc E k nb iv p))] =
+    [ONoOut; OOut (fst (cbc_enc E k nb iv p)); OOut p].
+Proof. exact obj_set_iv_encrypt_decrypt. Qed.
+Print Assumptions cbc_object_roundtrip_after_set_iv.
+
+(* the cipher state is reached by decrypt only for AUTHENTIC input: if a presented cipher text changes the state of the
+   encryptor object at all (even the decryption vector), then the encryptor is the aes one, the structure is whole blocks
+   (at least two) and the tag is the MAC of everything before it -- without the key nothing moves.  Conversely every
+   accepted cipher text passed that gate. *)
+Theorem unauthenticated_input_never_reaches_cipher_state : forall hmac dlen D, hmac_fixed_len hmac dlen ->
+  forall c o ci, snd (enc_obj_decrypt hmac dlen D c o ci) <> o ->
+  exists ck ma mk, c = CAes ck ma mk /\
+    skipn (length ci - dlen ma) ci = hmac ma mk (firstn (length ci - dlen ma) ci) /\
+    ((length ci - dlen ma) mod 16 = 0)%nat /\ (2 <= (length ci - dlen ma) / 16)%nat.
+Proof. exact unauthenticated_input_leaves_object. Qed.
+Print Assumptions unauthenticated_input_never_reaches_cipher_state.
+
+Theorem accepted_ciphertext_passed_the_gate : forall hmac dlen D ck ma mk ivd c m,
+  aes_decrypt hmac dlen D ck ma mk ivd c = Some m -> aes_auth_ok hmac dlen ma mk c = true.
+Proof. exact aes_decrypt_some_auth_ok. Qed.
+Print Assumptions accepted_ciphertext_passed_the_gate.
+
+(* the verdict of a load does not depend on the state of the object: whatever it saved or loaded before (any decryption
+   vector of one block), the answer is the stateless cookies_load of sections 1-5 *)
+Theorem load_verdict_independent_of_object_state : forall hmac dlen E D,
+  hmac_fixed_len hmac dlen -> block_len E -> block_len D -> block_inverse E D ->
+  forall c now o ck ivd, length (iv_dec o) = 16%nat -> length ivd = 16%nat ->
+  fst (cookies_obj_load hmac dlen D c now o ck) = cookies_load hmac dlen D c now ivd ck.
+Proof. exact load_verdict_stateless. Qed.
+Print Assumptions load_verdict_independent_of_object_state.
+
+(* REFINEMENT + the first sentence of the property on objects: a history of saves and loads on one encryptor object (two
+   chaining vectors evolving as in the code) answers exactly as the IV-passing history of section 3 started from the object
+   encryption vector, and -- under the same unforgeability hypothesis on the history -- every accepted load returns the
+   data and expiry of a save made earlier in it, unexpired *)
+Theorem object_history_accepted_only_if_issued_earlier : forall hmac dlen E D,
+  hmac_fixed_len hmac dlen -> block_len E -> block_len D -> block_inverse E D -> hmac_bytes_ok hmac -> block_bytes_ok E ->
+  forall c ops o hist,
+  length (iv_enc o) = 16%nat -> length (iv_dec o) = 16%nat -> Forall save_ok hist -> Forall op_ok (map trace_op ops) ->
+  unforgeable hmac E c (iv_enc o) hist (map trace_op ops) ->
+  cookies_obj_run hmac dlen E D c o ops = map obj_res (run hmac dlen E D c (iv_enc o) (map trace_op ops)) /\
+  accepted_were_issued hmac dlen E D c (iv_enc o) hist (map trace_op ops).
+Proof. exact obj_history_accepts_only_issued. Qed.
+Print Assumptions object_history_accepted_only_if_issued_earlier.
+
+(* COMPLETENESS over object histories: a cookie issued at ANY point of ANY history on an encryptor object (obj_after = the
+   state after a history; obj_ok = both chaining vectors are one block of bytes, an invariant of every history) is accepted
+   at any later point of that history with exactly the saved data and expiry, as long as the expiry has not passed ... *)
+Theorem issued_cookie_is_accepted_later_in_any_history : forall hmac dlen E D,
+  hmac_fixed_len hmac dlen -> block_len E -> block_len D -> block_inverse E D -> hmac_bytes_ok hmac -> block_bytes_ok E ->
+  forall c o ops1 d t ops2 now,
+  obj_ok o -> Forall sop_ok ops1 -> sop_ok (SSave d t) -> Forall sop_ok ops2 -> (now <= t)%Z ->
+  fst (cookies_obj_load hmac dlen D c now
+         (obj_after hmac dlen E D c (snd (cookies_obj_save hmac E c (obj_after hmac dlen E D c o ops1) d t)) ops2)
+         (fst (cookies_obj_save hmac E c (obj_after hmac dlen E D c o ops1) d t))) = Accept d t.
+Proof. exact issued_cookie_accepted_later. Qed.
+Print Assumptions issued_cookie_is_accepted_later_in_any_history.
+
+(* ... and by any OTHER object of the same configuration, whatever that object did before *)
+Theorem issued_cookie_is_accepted_by_any_other_object : forall hmac dlen E D,
+  hmac_fixed_len hmac dlen -> block_len E -> block_len D -> block_inverse E D -> hmac_bytes_ok hmac -> block_bytes_ok E ->
+  forall c o ops1 d t o2 now,
+  obj_ok o -> Forall sop_ok ops1 -> sop_ok (SSave d t) -> length (iv_dec o2) = 16%nat -> (now <= t)%Z ->
+  fst (cookies_obj_load hmac dlen D c now o2 (fst (cookies_obj_save hmac E c (obj_after hmac dlen E D c o ops1) d t))) = Accept d t.
+Proof. exact issued_cookie_accepted_by_other_object. Qed.
+Print Assumptions issued_cookie_is_accepted_by_any_other_object.
+
+(* non-vacuity: a toy history  save, save, load(first cookie), save, load(second), save  -- both loads are ACCEPTED (the
+   decryption side of the state really moves: iv_dec changes), and the four cookies are those of the four saves alone *)
+Definition toy_obj : cbcobj := mkobj toy_iv toy_iv2 true.
+Definition toy_ck1 := fst (cookies_obj_save toy_hmac toy_E toy_aes_cfg toy_obj [1;2;3] 2000).
+Definition toy_o1 := snd (cookies_obj_save toy_hmac toy_E toy_aes_cfg toy_obj [1;2;3] 2000).
+Definition toy_ck2 := fst (cookies_obj_save toy_hmac toy_E toy_aes_cfg toy_o1 [4;5] 2000).
+Definition toy_hist : list sop :=
+  [SSave [1;2;3] 2000; SSave [4;5] 2000; SLoad 1000 toy_ck1; SSave [4;5] 2000; SLoad 1000 toy_ck2; SSave [4;5] 2000].
+Example object_noninterference_nonvacuous :
+  cookies_obj_run toy_hmac toy_dlen toy_E toy_D toy_aes_cfg toy_obj toy_hist =
+    [RSaved toy_ck1; RSaved toy_ck2; RLoaded (Accept [1;2;3] 2000);
+     RSaved (nth 2 (cookies_issued toy_hmac toy_dlen toy_E toy_D toy_aes_cfg toy_obj toy_hist) []);
+     RLoaded (Accept [4;5] 2000);
+     RSaved (nth 3 (cookies_issued toy_hmac toy_dlen toy_E toy_D toy_aes_cfg toy_obj toy_hist) [])] /\
+  cookies_issued toy_hmac toy_dlen toy_E toy_D toy_aes_cfg toy_obj toy_hist =
+    cookies_issued toy_hmac toy_dlen toy_E toy_D toy_aes_cfg (mkobj toy_iv toy_iv true) (filter is_save_op toy_hist) /\
+  length (filter is_save_op toy_hist) = 4%nat /\
+  iv_dec (snd (cookies_obj_load toy_hmac toy_dlen toy_D toy_aes_cfg 1000 toy_obj toy_ck1)) <> iv_dec toy_obj /\
+  iv_enc (snd (cookies_obj_load toy_hmac toy_dlen toy_D toy_aes_cfg 1000 toy_obj toy_ck1)) = iv_enc toy_obj /\
+  obj_outs toy_E toy_D is_enc_op toy_key (mkobj toy_iv toy_iv2 true) [OEnc toy_iv2; ODec toy_key; OEnc toy_iv2] =
+    obj_outs toy_E toy_D is_enc_op toy_key (mkobj toy_iv toy_key true) [OEnc toy_iv2; OEnc toy_iv2] /\
+  obj_run toy_E toy_D toy_key obj_fresh [OEnc toy_iv; OSetIv [1;2]; OSetIv toy_iv; ODec toy_iv2] =
+    [OThrow; OThrow; ONoOut; OOut (xorl (toy_D toy_key toy_iv2) toy_iv)].
+Proof.
+  split; [vm_compute; reflexivity|]. split; [vm_compute; reflexivity|]. split; [reflexivity|].
+  split; [vm_compute; congruence|]. split; [vm_compute; reflexivity|]. split; vm_compute; reflexivity.
+Qed.
+
+(* ===== 10. what a request may do to the expiry (session_interface::save decision, model si_save_decide) =====
+   how = 0 fixed, 1 renew, 2 browser; loaded = Some (data, expiry) when load() accepted the presented cookie *)
+(* fixed policy: re-saving an existing session never moves its expiry (nothing issued, or the loaded expiry is kept) *)
+Theorem fixed_policy_never_extends_expiry : forall timeout_val now dc tin data r, dc <> [] ->
+  si_save_decide 0 timeout_val now (Some (dc, tin)) data = Some r -> r = tin.
+Proof. exact si_fixed_keeps_expiry. Qed.
+Print Assumptions fixed_policy_never_extends_expiry.
+
+(* a request that changes the data always issues a cookie *)
+Theorem changed_session_is_always_saved : forall how timeout_val now loaded data,
+  (forall dc tin, loaded = Some (dc, tin) -> kv_eqb data dc = false) ->
+  si_save_decide how timeout_val now loaded data <> None.
+Proof. exact si_changed_data_is_saved. Qed.
+Print Assumptions changed_session_is_always_saved.
+
+(* renew / browser policy: an issued cookie expires at now + timeout; a new session does under every policy *)
+Theorem renewed_expiry_is_now_plus_timeout : forall how timeout_val now loaded data r, how <> 0 ->
+  si_save_decide how timeout_val now loaded data = Some r -> r = (timeout_val + now)%Z.
+Proof. exact si_renew_expiry. Qed.
+Print Assumptions renewed_expiry_is_now_plus_timeout.
+
+(* what a request saves is what the next request loads: the session data codec (packed 10/1/21-bit header, key, value)
+   round trips for every data map whose keys (< 1024 bytes) and values (< 2 MiB) fit the header, keys in std::map order *)
+Theorem saved_session_data_is_loaded_back : forall kvs, Forall kv_fits kvs -> Sorted.StronglySorted key_lt kvs ->
+  session_load_data (length (session_save_data kvs)) (session_save_data kvs) [] = Some kvs.
+Proof. exact load_save_data. Qed.
+Print Assumptions saved_session_data_is_loaded_back.
+
+Example save_decision_nonvacuous :
+  si_save_decide 0 3600 1000 (Some ([([97],[1])], 2000%Z)) [([97],[2])] = Some 2000%Z /\
+  si_save_decide 0 3600 1000 (Some ([([97],[1])], 2000%Z)) [([97],[1])] = None /\
+  si_save_decide 1 3600 1000 (Some ([([97],[1])], 2000%Z)) [([97],[1])] = Some 4600%Z /\
+  si_save_decide 1 3600 1000 (Some ([([97],[1])], 4500%Z)) [([97],[1])] = None /\
+  si_save_decide 0 3600 1000 None [([97],[1])] = Some 4600%Z /\
+  session_load_data 20 (session_save_data [([97],[1;2]); ([98;99],[])]) [] = Some [([97],[1;2]); ([98;99],[])] /\
+  kv_set_all [([98],[7]); ([97],[8])] [([97],[1]); ([99],[2])] = [([97],[8]); ([98],[7]); ([99],[2])].
+Proof. vm_compute. repeat split; reflexivity. Qed.
